@@ -324,32 +324,37 @@ End Fmt.
    commits that returned length.  [nl_site_bound]: the n of the call site that formats the item, from the scraped
    facts of Gen.v (None: the plain "%s" copy, which calls nothing): MAX_ITEM for the numeric, character and pointer
    sites; for the modified %s the size of the buffer prepared for it, max(#s + 1, MAX_ITEM). *)
-Definition nl_site_bound (conv : Z) (form : bytes) (a : farg) : option Z :=
+(* [s_buf]: the %s site is given the size of the buffer prepared for it (as scraped) rather than MAX_ITEM;
+   [num_max]: the other sites are given MAX_ITEM *)
+Definition nl_site_bound_pol (s_buf num_max : bool) (conv : Z) (form : bytes) (a : farg) : option Z :=
   if conv =? 115 then
     if Nat.eqb (length form) 2 then None
     else
       let s := match a with AStr s => s | AInt v => decimal_of v end in
-      Some (if FMT_S_SITE_BOUND_IS_BUF_SIZE then Z.max (slen s + 1) NL_MAX_ITEM else NL_MAX_ITEM)
-  else Some (if FMT_NUM_SITES_BOUND_IS_MAX_ITEM then NL_MAX_ITEM else 0).
+      Some (if s_buf then Z.max (slen s + 1) NL_MAX_ITEM else NL_MAX_ITEM)
+  else Some (if num_max then NL_MAX_ITEM else 0).
+Definition nl_site_bound := nl_site_bound_pol FMT_S_SITE_BOUND_IS_BUF_SIZE FMT_NUM_SITES_BOUND_IS_MAX_ITEM.
 
 Section FmtBounded.
 Variable cfloat : bytes -> Z -> bytes.
 
 (* the item with the bound taken into account: an output that does not fit is cut by snprintf; for the numeric sites
    formatarg then stops ('formatted item too long', 38f86f9); for %s it commits bytes that were never written *)
-Definition nl_item_b (rest : bytes) (a : farg) : res (bytes * bytes) :=
+Definition nl_item_b_pol (s_buf num_max : bool) (rest : bytes) (a : farg) : res (bytes * bytes) :=
   match nl_scanformat rest with
   | Trap => Trap | Unsafe => Unsafe
   | Val (form, conv, _) =>
       match nl_item cfloat rest a with
       | Val (b, r') =>
-          match nl_site_bound conv form a with
+          match nl_site_bound_pol s_buf num_max conv form a with
           | None => Val (b, r')
           | Some n => if slen b <? n then Val (b, r') else if conv =? 115 then Unsafe else Trap
           end
       | x => x
       end
   end.
+
+Definition nl_item_b := nl_item_b_pol FMT_S_SITE_BOUND_IS_BUF_SIZE FMT_NUM_SITES_BOUND_IS_MAX_ITEM.
 
 Fixpoint nl_format_loop_b (fuel : nat) (fmt : bytes) (args : list farg) : res bytes :=
   match fuel with
